@@ -28,6 +28,20 @@ type Input struct {
 	// every value is floored independently, so totals may exceed self + children
 	CloneM uint64 `json:"clone_m,omitempty"`
 	CloneD uint64 `json:"clone_d,omitempty"`
+	// Hold: other trees that are encoded with Tree.Bytes AFTER this tree's bytes were obtained and BEFORE they are
+	// decoded (the storage's save goroutines call Bytes for one tree after another and keep the slices)
+	Hold [][]treeu.Stack `json:"hold,omitempty"`
+}
+
+var holdSink int
+
+func encodeOthers(in Input) {
+	for _, ss := range in.Hold {
+		b, err := treeu.Build(ss).Bytes(dict.New(), 1024)
+		if err == nil {
+			holdSink += len(b)
+		}
+	}
 }
 
 // BadSpec describes one corruption of the self-contained stream. Only used with trees whose stream consists of
@@ -140,6 +154,7 @@ func run(in Input) lib.Result {
 		if err != nil {
 			return nil, err
 		}
+		encodeOthers(in)
 		return tree.FromBytes(d, b)
 	})
 	pre := optTree(func() (*tree.Tree, error) {
@@ -151,6 +166,7 @@ func run(in Input) lib.Result {
 		if err != nil {
 			return nil, err
 		}
+		encodeOthers(in)
 		return tree.FromBytes(d, b)
 	})
 	nodict := optTree(func() (*tree.Tree, error) {
@@ -204,7 +220,7 @@ func run(in Input) lib.Result {
 		NonTrivial: ties > 0 || (in.Cap >= n-1 && in.Cap <= n+1),
 		Feat: map[string]interface{}{"nodes_class": sizeClass(n), "cap_vs_nodes": rel, "ties_class": sizeClass(ties),
 			"zero_total_nodes_class": sizeClass(zeros), "mode": mode, "built_by": builtBy(in), "pre_dict": len(in.Pre) > 0,
-			"threshold_zero": minv == 0, "malformed_stream": badKind(in), "totals": totalsClass(orig), "cloned": in.CloneD != 0},
+			"threshold_zero": minv == 0, "malformed_stream": badKind(in), "totals": totalsClass(orig), "cloned": in.CloneD != 0, "held_across_other_encodes": len(in.Hold)},
 		Obs: map[string]interface{}{"nodes": n, "minval": minv},
 	}
 }
@@ -370,7 +386,30 @@ func genPre(r *rand.Rand) [][]byte {
 	return pre
 }
 
+func genHold(r *rand.Rand) [][]treeu.Stack {
+	if r.Intn(10) >= 6 {
+		return nil
+	}
+	// one smaller and one larger tree, in either order
+	small := treeu.RandStacks(r, lib.Range(r, 0, 2), 2, 5)
+	large := treeu.RandStacks(r, lib.Range(r, 15, 60), 6, 1000)
+	switch r.Intn(3) {
+	case 0:
+		return [][]treeu.Stack{small}
+	case 1:
+		return [][]treeu.Stack{large, small}
+	default:
+		return [][]treeu.Stack{small, large}
+	}
+}
+
 func gen(r *rand.Rand, idx int, tier string) Input {
+	in := gen0(r, idx, tier)
+	in.Hold = genHold(r)
+	return in
+}
+
+func gen0(r *rand.Rand, idx int, tier string) Input {
 	var in Input
 	in.Pre = genPre(r)
 	x := r.Intn(20)
